@@ -169,6 +169,22 @@ class LooseDedupMachine(Machine):
             if n.kind == 'leave' and n.frame.fn.qualname == 'utils:ObjectWriter.__exit__':
                 self.leave_nodes.add(n.id)
         self.publishes = 0
+        # verification variables: locals of __exit__ assigned from an internal call that (transitively) opens a file and is given the
+        # loose destination path -- identified by def-use, not by name
+        from .common import Summaries
+        S = Summaries(ctx)
+        ex = ctx.prog.fn('utils:ObjectWriter.__exit__')
+        fr = self.K.top_frame(ex)
+        self.vvars = set()
+        self.verifiers = {}
+        for n in walk_local(ex.node):
+            if isinstance(n, ast.Assign) and isinstance(n.targets[0], ast.Name) and isinstance(n.value, ast.Call):
+                cal = self.K.resolve_call(n.value, fr)
+                if cal is not None and cal.kind == 'internal':
+                    args = list(n.value.args) + [k.value for k in n.value.keywords]
+                    if any(in_area(self.K, self.K.kind(a, fr), 'loose') for a in args) and any(e[0] == 'OPEN' for e in S.trans(cal.target, depth=6)):
+                        self.vvars.add(n.targets[0].id)
+                        self.verifiers[cal.target.qualname] = cal.target
 
     def initial(self, g):
         return [('?', '?', False)]
@@ -182,7 +198,7 @@ class LooseDedupMachine(Machine):
         txt = norm(e)
         if isinstance(e, ast.Call) and isinstance(e.func, ast.Attribute) and e.func.attr == 'exists' and in_area(self.K, self.K.kind(e.func.value, c[1]), 'loose'):
             E = 'exists' if pol else 'absent'
-        elif isinstance(e, ast.Compare) and len(e.ops) == 1 and 'checksum' in txt:
+        elif isinstance(e, ast.Compare) and len(e.ops) == 1 and ({x.id for x in ast.walk(e) if isinstance(x, ast.Name)} & self.vvars):
             if isinstance(e.ops[0], ast.Eq) and '_hashkey' in txt:
                 V = 'ok' if pol else ('bad' if V != 'gone' else V)
             elif isinstance(e.ops[0], ast.NotEq) and '_hashkey' in txt:
@@ -335,6 +351,20 @@ def run(ctx):
         chk.bad(R1, 'utils:ObjectWriter.__exit__', 'return paths of __exit__', v.msg, where=v.node.where, witness=v.witness)
     if not viols:
         chk.ok(R1, 'utils:ObjectWriter.__exit__', 'exists/checksum decision tree', detail='every normal return: verified, vanished, replaced or newly published')
+    # the verification really re-reads the existing file each time: no memoised function on the way from __exit__ to the file
+    from .common import memoised_external_readers, reachable_functions
+    chk.require(m.vvars and m.verifiers, 'ObjectWriter.__exit__: the call that re-hashes the existing loose file was not found')
+    memo = memoised_external_readers(ctx, S)
+    badmemo = []
+    for vq, vf in m.verifiers.items():
+        reach = reachable_functions(ctx, S, vf)
+        badmemo += [(f2, d) for f2, d in memo if f2.qualname in reach]
+    if badmemo:
+        for f2, d in badmemo:
+            chk.bad(R1, f2.qualname, f'@{d}', 'the checksum used to decide whether an existing loose copy is intact is memoised: damage that happens after the first verification is never seen, '
+                    'so re-adding the content no longer repairs a corrupted loose copy', where=f'{f2.module.relpath}:{f2.lineno}')
+    else:
+        chk.ok(R1, 'utils:ObjectWriter.__exit__', f'verifier(s) {sorted(m.verifiers)}', detail='the existing copy is re-read and re-hashed on every call (no memoised function on the chain)')
     # destination name is a function of the key only
     ex = prog.fn('utils:ObjectWriter.__exit__')
     bad_names = []
